@@ -75,14 +75,14 @@ func VerifyNameErrorNSEC(msg *dns.Msg, nsecSet []dns.RR) error {
 		return ErrNSECMissingCoverage
 	}
 
-	// RFC 4592 §4.2: wildcards are not defined at the root zone, so if
-	// the closest encloser is the root, there is no wildcard proof to
-	// require.
-	if ce == "." {
-		return nil
-	}
-
+	// The source of synthesis below the root is "*." (RFC 4592 §2.1.1
+	// puts no zone out of a wildcard's reach): its absence has to be
+	// proven like any other wildcard's, or a name the root zone answers
+	// by expansion could be denied with the covering NSEC alone.
 	wildcard := "*." + ce
+	if ce == "." {
+		wildcard = "*."
+	}
 	for _, rr := range nsecSet {
 		nsec := rr.(*dns.NSEC)
 		if nsecCovers(nsec.Header().Name, nsec.NextDomain, wildcard) {
